@@ -182,6 +182,7 @@ package node
 //@ import _state "github.com/mosaicnetworks/babble/src/node/state"
 
 //@ func (c *core) eventDiff(otherKnown map[uint32]int) (events []*hg.Event, err error)
+//@   safety on
 //@   requires c != nil && c.hg != nil
 //@   modifies hg.G_miss(c.hg.Store)
 //@   ensures[nonnil] err == nil ==> (forall k int :: 0 <= k && k < len(events) ==> events[k] != nil)
